@@ -376,7 +376,8 @@ def quick_bases(rng, n=4):
     for k in range(n):
         bs.append({"mode": rng.choice(["L", "l"]) if k % 2 == 0 else rng.choice([None, "F", "f"]),
                    "fin": rng.random() < 0.5, "strict": rng.random() < 0.5, "no_save": False,
-                   "out": rng.choice([None, None, "o.json", "res/deep/out.json"]), "log": rng.choice([None, "silent", "info"])})
+                   "out": (None, "o.json", "res/deep/out.json", None)[k % 4] if n <= 4 else rng.choice([None, None, "o.json", "res/deep/out.json"]),
+                   "log": rng.choice([None, "silent", "info"])})
     bs[0]["fin"], bs[1]["fin"], bs[2]["fin"], bs[3]["fin"] = True, True, False, False
     bs[0]["strict"], bs[1]["strict"], bs[2]["strict"], bs[3]["strict"] = False, True, True, False
     bs[rng.randrange(n)]["no_save"] = rng.random() < 0.6
@@ -391,6 +392,8 @@ def build_jobs(ctx, rng, pool):
             for k, d in enumerate(all_flag_dicts()):
                 if d["no_cpp"] and not pre:
                     continue
+                if d["out"]:     # vary the shape of the output path: nested relative, bare file name, deeper
+                    d["out"] = ("res/out.json", "o.json", "res/deep/o2.json")[k % 3]
                 if k % 7 == 3:
                     d["mode"] = d["mode"].lower()
                 if k % 11 == 5 and d["mode"] == "F":
